@@ -119,3 +119,31 @@ def get_recurrences(cx):
         return z3.And(z3.Select(dom, goal.t),
                       z3.ForAll([x, j], z3.Implies(z3.And(z3.Select(dom, x), 0 <= j, j < z3.Length(MONS(REC(x)))), z3.Select(dom, acc_m(MONS(REC(x))[j])))))
     cx.ensures(post)
+
+
+@contract(F, 'RecBuilder.get_initial_value', ['C03', 'C01'])
+def get_initial_value(cx):
+    """E(M) before the first iteration: the monomial is pushed backwards through the initial block (last assignment first), then every remaining
+    program variable v of the monomial is replaced by its symbolic initial value v0"""
+    NEC = z3.Function('replace_is_necessary', REF, R, B); REP = z3.Function('replace_assign', R, REF, R); V0 = z3.Function('to_initial_symbols', R, R)
+    init = cx.seq('initial', DRef('Assignment')); mono = cx.real('monom')
+    prog = cx.obj('Program', initial=init, symbols=V('opaque'))
+    cx.param(self=cx.obj('RecBuilder', program=prog, context=cx.ref('ctx0')), monom=mono)
+    cx.call('RecBuilderContext', lambda ex, st, r, a, kw: V('ref', ex.fresh(REF, 'ctx')))
+    cx.call('_assign_replace_is_necessary', lambda ex, st, r, a, kw: VB(NEC(a[0].t, toreal(a[1]))), trusted='_assign_replace_is_necessary')
+    cx.call('_replace_assign', lambda ex, st, r, a, kw: VR(REP(toreal(a[0]), a[1].t)), trusted='_replace_assign contract (above)')
+    frees = cx.seq('remaining_variables', DRef('Symbol'))
+    cx.attr('free_symbols', lambda ex, st, o: V('opaque'))
+    cx.call('difference', lambda ex, st, r, a, kw: V('set', frees.t, ek=DRef()), trusted='monom.free_symbols - program.symbols: the program variables of the monomial')
+    SUB = z3.Function('replace_by_initial_symbol', R, REF, R)
+    cx.call('Symbol', lambda ex, st, r, a, kw: V('opaque'))
+    cx.call('xreplace', lambda ex, st, r, a, kw: VR(SUB(toreal(r), st['sym'].t)), trusted='xreplace({v: v0})')
+    n = z3.Length(init.t)
+    CH = z3.RecFunction('init_chain', I, R, R); i = z3.Int('i'); rr = z3.Real('rr')
+    # processing order: reversed(initial): position g handles initial[n-1-g]
+    z3.RecAddDefinition(CH, [i, rr], z3.If(i < 0, rr, CH(i - 1, z3.If(NEC(init.t[i], rr), REP(rr, init.t[i]), rr))))
+    FD = z3.RecFunction('subst_fold', I, R, R); k = z3.Int('k'); r2 = z3.Real('r2')
+    z3.RecAddDefinition(FD, [k, r2], z3.If(k <= 0, r2, SUB(FD(k - 1, r2), frees.t[k - 1])))
+    cx.invariant(0, lambda st: CH(n - 1 - st['$i0'].t, toreal(st['result'])) == CH(n - 1, mono.t))
+    cx.invariant(1, lambda st: toreal(st['result']) == FD(st['$i1'].t, CH(n - 1, mono.t)))
+    cx.ensures(lambda st, r: toreal(r) == FD(z3.Length(frees.t), CH(n - 1, mono.t)))
